@@ -42,7 +42,7 @@ Spec == Init /\ [][Next]_<<a, b, ph>>
 (* all affine points: for every x the y with y^2 = rhs(x), through the table of squares *)
 Squares == TLCEval({<<M(y, y), y>> : y \in F2})
 Points == LET sq == Squares IN
-          TLCEval(UNION {{XPt(x, s[2]) : s \in {t \in sq : t[1] = XRhs(x, Crv)}} : x \in F2})
+          TLCEval(UNION {LET rh == XRhs(x, Crv) IN {XPt(x, s[2]) : s \in {t \in sq : t[1] = rh}} : x \in F2})
 Seq2Set(s) == {s[i] : i \in 1..Len(s)}
 
 RECURSIVE SetToSeq(_)
